@@ -31,6 +31,7 @@ func genC15(t *core.Tape, tier string) *Scenario {
 	sc.Clients = []ClientCfg{c}
 	p := &CallPlan{ID: callID(0), Kind: genKind(t)}
 	p.K = genKnobs(t, p.Kind)
+	p.K.NoFlusher = false // these programs wait, inside the handler, for the client to have seen what the handler sent
 	nreq, nresp := 1, 1
 	if p.Kind == KClient || p.Kind == KBidi {
 		nreq = 1 + t.Choose(5, "nreq")
